@@ -174,6 +174,56 @@ PROPS = {
         "trusted_base": COMMON_TB + ["SHA-256 executable model validated on vectors"],
         "assumptions": ["Go regexp leftmost-lazy semantics reduce to 'split at the last colon' for this expression (argued in GoBT/Addr/Bip276.lean)"],
     },
+    "C05": {
+        "manifest": {
+            "text": "A complete executable Lean model of the interpreter (apply/Step/executeOpcode/CheckErrorCondition, all ~110 non-signature handlers, script numbers, both eras, P2SH re-entry, policy flags; structural recursion over the parsed opcodes) is compared on every run, program by program, with the real interpreter through a recording Debugger: verdict plus the data, alt and conditional stacks, op count, early-return flag and last-code-separator index after every executed instruction. Lean theorems: the regenerated opcode dispatch table, per-era limits and flag bits are the ones the model is written against (kernel-evaluated on every run), OP_RETURN decision logic per era, disabled/reserved opcode rules, element-size rule, combined-stack-depth invariant over every recorded state, minimal-number-encoding characterisation.",
+            "note": "Partial: the model is the *transcription* of the BSV rules by which go-bt is judged; the refinement model = declarative spec for each opcode and decode(encode z) = z for all integers are not yet proved (numeric layer is checked exhaustively on ranges by the driver). Where the unrepaired code deviated (OP_LSHIFT/OP_RSHIFT), the model follows the node's rule (bit-string shift) and the code was repaired. Hash functions are executable Lean models validated on vectors. Trusted: Lean kernel + standard axioms, extractor, harness/generators/comparer, driver glue.",
+            "technique": "executable Lean model + Lean 4 proofs of table obligations and invariants + step-by-step differential correspondence check",
+        },
+        "generators": ["C05"],
+        "thorough_seeds": 2,
+        "gen_obligations": ["dispatch_table_matches", "limits_match", "flags_match"],
+        "rule": "exhaustive: every unary opcode x edge operands (empty, 00, 80, 01, 81, 7f, ff, non-minimal, 4/5/9-byte, 32/33-byte negative, 519/520/521 and 2000-byte), every binary opcode x E x E, WITHIN x E'^3, shifts for operand lengths {0,1,2,3,4,16,33} x counts 0..8n+1 plus negative/huge counts, both eras; type-directed random programs (stack-depth aware, nested IF/NOTIF/ELSE/ENDIF with OP_RETURN, VERIF, disabled and undefined opcodes in executed and skipped branches) under sampled policy flags; conditional matrices; limit probes (200/201/499/500/501 ops, 999/1000/1001 items, 519/520/521 bytes, 9999/10000/10001-byte scripts); P2SH redeem scripts; push forms under MINIMALDATA. Non-trivial = program that executed at least 3 instructions.",
+        "nontrivial": lambda op, impl: impl.count("|") >= 2,
+        "trusted_base": COMMON_TB + ["fact extractor /verif/extract", "SHA-256 / SHA-1 / RIPEMD-160 executable models validated on vectors"],
+        "assumptions": ["OP_NUM2BIN to sizes beyond 64 KiB after Genesis is out of model (memory exhaustion only)", "the interpreter.Debugger API reports thread state faithfully (one AfterStep per Step)"],
+    },
+    "C07": {
+        "manifest": {
+            "text": "The interpreter model is a total Lean function (structural recursion, so termination is kernel-checked) in which every Go run-time check is an explicit panic outcome; Lean theorems: one snapshot per instruction at most (step bound), OP_CHECKSIG cannot hit the no-transaction dereference when a context is present, the numeric/stack combinators and shifts never fail with a panic for any operand (incl. the empty operand and every shift count), preparation yields an error value or a prepared run. Tied to the code by a differential check of outcomes {ok, err, panic, crash} over arbitrary byte strings as both scripts, all single flags and flag pairs plus sampled 16-bit flag sets, eight kinds of transaction context (none, valid, tx without previous output, nil tx, nil input element, previous output without script, nothing, locking script only), indices -1 / len / 2^30, with and without a debugger, and memory-limited child processes for count-driven allocations.",
+            "note": "Partial: the global theorem 'execute never returns the panic outcome' is not yet proved (it needs the parser/runtime conditional-depth invariant and a per-handler case analysis); Go run-time failures outside the modelled checks (stack exhaustion, memory exhaustion by OP_NUM2BIN to gigabytes) are exercised, not proved. Trusted: Lean kernel + standard axioms, harness/generators/comparer, driver glue.",
+        },
+        "generators": ["C07"],
+        "thorough_seeds": 2,
+        "rule": "13 hand-picked nasty script pairs x all 136 single flags / flag pairs x 2 contexts; random / grammar-aware / truncated / signature-opcode-bearing scripts x sampled flag sets x 8 context kinds x {valid, -1, len, 2^30} indices x {no debugger, recording debugger}; isolated resource probes (OP_CHECKMULTISIG with key counts up to 2^31-1). Non-trivial = execution that got past option validation with at least one non-empty script.",
+        "nontrivial": lambda op, impl: len(op) > 40,
+        "trusted_base": COMMON_TB,
+        "assumptions": ["address-space limit of the child processes is an adequate stand-in for 'crashes the process'"],
+    },
+    "C08": {
+        "manifest": {
+            "text": "Every alias pattern {pushed from the script, DUP, 2DUP, 3DUP, OVER, 2OVER, PICK, TUCK, IFDUP, via the alt stack, ROLL of a duplicate, both halves of SPLIT} x every value-changing opcode (with shift counts 0..17, NUM2BIN/SPLIT sizes, bitwise, arithmetic, hashes) x operand shapes x both eras is executed on the real interpreter and compared item by item after every step with the value-semantics Lean model (an in-place write shows up as a differing twin), and the caller's script buffers and transaction bytes are compared before and after every execution (also with a transaction context). Lean theorems over a reference-semantics model of stack items (slices into heap cells): a handler that allocates its result changes the top item only - every other item keeps its value whatever the sharing; DUP and SPLIT only create references; machine-checked witness that an in-place handler changes the twin and the script cell.",
+            "note": "Partial: 'every handler allocates its result' is established by the differential alias probes, not by a regenerated write-site fact (the planned SSA extractor Gen/Writes is not built). Trusted: Lean kernel + standard axioms, harness/generators/comparer, driver glue.",
+        },
+        "generators": ["C08"],
+        "thorough_seeds": 1,
+        "rule": "13 duplication patterns x ~95 value-changing operations x 11 (quick) / 15 operand shapes x 2 eras (quick: 1 in 3 sampled), SPLIT halves at every cut up to 4, 300/20000 random programs with a transaction context. Non-trivial = program that executed at least 2 instructions.",
+        "nontrivial": lambda op, impl: impl.count("|") >= 1,
+        "trusted_base": COMMON_TB,
+        "assumptions": [],
+    },
+    "C19": {
+        "manifest": {
+            "text": "Each program is run on the real interpreter three times - no debugger, a recording debugger, and a debugger that overwrites every stack byte and conditional entry of every snapshot it receives (all 14 callbacks) - and verdicts and step traces must coincide with each other and with the Lean model; the recorded callback sequence must lie in the documented lifecycle, checked as a regular language by the driver. Lean theorems: consecutive AfterStep snapshots of a script are related by the instruction executed between them (induction over the run); in the reference model, scribbling over freshly copied snapshot cells leaves every live item of the execution unchanged.",
+            "note": "The independence of the verdict from the debugger is by construction in the model (the execution function takes no debugger input) and by three-way comparison on the real code; thread.State() producing deep copies is an assumption checked by the scribbling runs. Trusted: Lean kernel + standard axioms, harness/generators/comparer, driver glue incl. the lifecycle automaton.",
+        },
+        "generators": ["C19"],
+        "thorough_seeds": 1,
+        "rule": "1500/60000 random programs (both eras, five policy flag sets), 60 P2SH programs (script-change events), shift/BIN2NUM/SPLIT programs; each x {none, recording, scribbling}. Non-trivial = program with at least 2 steps.",
+        "nontrivial": lambda op, impl: impl.count("|") >= 1,
+        "trusted_base": COMMON_TB,
+        "assumptions": [],
+    },
 }
 
 NOT_APPLICABLE = {}
